@@ -151,9 +151,31 @@ def run(prop: str, tier: str) -> int:
             return rng.choice([rng.randrange(-2**31, 2**31), rng.randrange(-5, 6), 2**31 - 1, -2**31])
         def u32v():
             return limbs(rng.choice([rng.randrange(2**32), rng.randrange(70000), 2**32 - 1, 65536, 65535]))
-        for i in range(n):
-            t = rng.choice(sorted(HOST | {"Done", "Error", "ReturnReg", "ReturnArray", "ReturnArray"}))
-            if t == "InitNewApp":
+        # systematic sweep: every small value in every integer field (a value that happens to look like a length,
+        # a type tag or a header must still be delivered as the value it is)
+        sweep = []
+        rng_small = range(0, 41)
+        for v in rng_small:
+            for w in (0, 1, 2, 4, 8, 16, 255):
+                sweep.append({"t": "InitNewApp", "app_id": limbs(v), "max_qubits": w})
+            sweep.append({"t": "StopApp", "app_id": limbs(v)})
+            sweep.append({"t": "Done", "msg_id": limbs(v)})
+            sweep.append({"t": "ReturnReg", "register": v % 64, "value": v})
+            for w in (0, 1, 7, 16):
+                sweep.append({"t": "OpenEPRSocket", "app_id": limbs(v), "epr_socket_id": w, "remote_node_id": (v + w) % 5, "remote_epr_socket_id": w % 3, "min_fidelity": (3 * v) % 256})
+                sweep.append({"t": "OpenEPRSocket", "app_id": limbs(w), "epr_socket_id": v, "remote_node_id": 1, "remote_epr_socket_id": v, "min_fidelity": 100})
+            sweep.append({"t": "ReturnArray", "address": v, "values": []})
+            sweep.append({"t": "ReturnArray", "address": v * 2**24, "values": [[1, v]] * (v % 4)})
+            sweep.append({"t": "Subroutine", "payload": [v] * 11})
+        for i in range(n + len(sweep)):
+            if i >= n:
+                t = "sweep"
+                m = sweep[i - n]
+            else:
+                t = rng.choice(sorted(HOST | {"Done", "Error", "ReturnReg", "ReturnArray", "ReturnArray"}))
+            if t == "sweep":
+                pass
+            elif t == "InitNewApp":
                 m = {"t": t, "app_id": u32v(), "max_qubits": rng.randrange(256)}
             elif t == "OpenEPRSocket":
                 m = {"t": t, "app_id": u32v(), "epr_socket_id": i32(), "remote_node_id": i32(),
